@@ -16,6 +16,8 @@
    - search_pb_no_panic, search_pb_no_crash: at every conflict of every run the
      state handed to cuttingPlanes meets state_wf3b, and the call neither panics
      nor runs out of fuel;
+   - search_pb_conflict_progress: what a conflict step achieves (new fact or
+     asserting constraint), and livelock_old for the code before 0a73d0f;
    - replay_pb_sound / _unsat / _sat for the executable replay.
 
    HOW.  The invariant is maintained through a conflict by four facts about a
@@ -40,23 +42,17 @@
                  anything else can happen.
 
    ABOUT THE GO CODE.
-   (1) The second push of a unit that is already a fact (see Model/SearchPB.v).
-       The model is the de-duplicated view.  What the copy could change in the
-       real code: only calls whose walk reaches the level-1 part of the trail
-       and passes a later copy (zeroing the variable) before meeting the first
-       copy.  onlyFalsified then stops early on the first copy (its level reads
-       0), and a reason of a level-1 literal that depended on that variable is
-       rounded under a model in which it is un-assigned -- outside the
-       hypotheses of round_reason.  In every such call the conflict constraint
-       is already falsified by facts alone, i.e. the problem is unsatisfiable,
-       so no wrong Sat can come out of it; whether it can end in a panic
-       (NewPBClause with card < 1) instead of Unsat is not decided here.  No
-       such call was observed.
-   (2) "return nil, propagated, 1" drops the learned constraint when SimplifyPB
-       yields units (and when btLvl = 1).  This is sound (the units are
-       consequences) but loses information; together with (1) it is what makes
-       the search-level repetition reported in Proofs/CPSearch.v possible.
-       Termination of the whole search is not claimed here.
+   (1) Before commit 0a73d0f the newLvl == 1 branch pushed a unit that was
+       already a fact a second time, and cuttingPlanes returned (nil, units, 1)
+       even when every unit was already a fact, dropping the learned constraint:
+       the search could then meet the same conflicts for ever (livelock_old:
+       the old successor function maps a configuration back to itself).  Since
+       0a73d0f such units are skipped and the whole constraint is learned
+       instead; search_pb_conflict_progress states what every conflict step now
+       achieves.  Termination of the whole search (restarts, forgetting) is the
+       usual CDCL question and is not claimed.
+   (2) When btLvl = 1 the learned constraint is dropped and its literal becomes
+       a fact (it is a NEW fact: the literal was bound at a level >= 2).
    (3) reduceLearnedPB deletes reasons of bound literals: isLocked() is never
        true for a constraint learned by cuttingPlanes (Model/SearchPB.v,
        FORGETTING).  Covered by the model; harmless as far as these theorems
@@ -1102,6 +1098,32 @@ Proof.
   rewrite <- Hj. apply set_terms_in. lia.
 Qed.
 
+(* the un-simplified constraint (commit 0a73d0f: learned when every unit found by
+   SimplifyPB is already a fact) *)
+Definition full_of (ws : list Z) (d : Z) : pbc := PBC (sort_terms (set_terms 1 ws)) d.
+
+Lemma full_of_ok : forall ws d, pbc_ok (List.length ws) (full_of ws d) = true.
+Proof.
+  intros ws d. apply pbc_ok_iff.
+  apply (terms_ok_perm _ _ _ (Permutation_sym (Proofs.PBNorm.sort_terms_perm _))).
+  apply terms_ok_set_terms.
+Qed.
+
+Lemma full_of_poss : forall ws d md, poss md (terms (full_of ws d)) <= nfsum md ws.
+Proof.
+  intros ws d md. cbn [full_of terms].
+  rewrite (poss_perm md _ _ (Proofs.PBNorm.sort_terms_perm (set_terms 1 ws))).
+  rewrite poss_set_terms1. lia.
+Qed.
+
+Lemma full_of_in : forall ws d j, Z.abs (nth j ws 0) = 1 ->
+  In (1, if nth j ws 0 <? 0 then - (1 + Z.of_nat j) else 1 + Z.of_nat j) (terms (full_of ws d)).
+Proof.
+  intros ws d j Hj. cbn [full_of terms].
+  apply (Permutation_in _ (Permutation_sym (Proofs.PBNorm.sort_terms_perm _))).
+  rewrite <- Hj. apply set_terms_in. lia.
+Qed.
+
 (* arithmetic of "the learned constraint propagates the unit after the jump" *)
 Lemma nfsum_ext : forall ws a b,
   (forall j, nf (nth j a 0) (nth j ws 0) = nf (nth j b 0) (nth j ws 0)) -> nfsum a ws = nfsum b ws.
@@ -1293,14 +1315,19 @@ Lemma fin_learn : forall c props nl, 2 <= L -> cp_finish pb md' u = CPLearn c pr
   forall k md1 rs1, cleanup_bindings nl tr md0 rs = (k, md1, rs1) ->
     free_lit md1 (- u) = true /\ reason_okb n (push md1 (- u) nl) c (- u) = true.
 Proof.
-  intros c props nl HL H. unfold cp_finish in H.
+  intros c props nl0 HL H. unfold cp_finish in H.
   destruct (round_to_one md' (vidx u) pb) as [pb1|] eqn:E1; [|discriminate].
-  destruct (Z.ltb_spec (snd pb1) 1) as [Ld|Ld]; [discriminate|].
+  destruct (Z.ltb_spec (snd pb1) 1) as [Ld|Ld]; [discriminate|]. cbv zeta in H.
   destruct (simplify_pb (PBC (sort_terms (set_terms 1 (fst pb1))) (snd pb1))) as [[us rest]|] eqn:Es;
     [|discriminate].
-  destruct us as [|u0 us]; [|discriminate]. destruct rest as [c'|]; [|discriminate].
-  injection H as <- <- <-. split; [reflexivity|]. split; [reflexivity|].
-  apply simplify_learn_shape in Es. fold (learned_of (fst pb1) (snd pb1)) in Es. subst c'.
+  destruct (forallb (is_fact md') us); [|discriminate].
+  assert (Hsh : props = [- u] /\ nl0 = backtrack_level md' (vidx u) pb /\
+                (c = learned_of (fst pb1) (snd pb1) \/ c = full_of (fst pb1) (snd pb1))).
+  { destruct us as [|u0 us].
+    - destruct rest as [c'|]; [|discriminate]. injection H as <- <- <-.
+      apply simplify_learn_shape in Es. subst c'. split; [reflexivity|]. split; [reflexivity|left; reflexivity].
+    - injection H as <- <- <-. split; [reflexivity|]. split; [reflexivity|right; reflexivity]. }
+  destruct Hsh as [-> [-> Hc]]. clear H Es. split; [reflexivity|]. split; [reflexivity|].
   set (nl := backtrack_level md' (vidx u) pb). set (ws1 := fst pb1). set (d := snd pb1) in *.
   destruct (fin_bt HL) as [Hnl1 Hnl2]. fold nl in Hnl1, Hnl2.
   intros k md1 rs1 Hcl.
@@ -1348,13 +1375,16 @@ Proof.
       try discriminate; destruct (Z.ltb_spec 0 (nth (vidx u) (fst pb) 0)); destruct (Z.ltb_spec 0 (- u));
       try reflexivity; lia. }
   assert (Habs : Z.abs (nth (vidx u) ws1 0) = 1) by (rewrite Hw1'; destruct (0 <? x); reflexivity).
-  assert (Hin : In (1, x) (terms (learned_of ws1 d))).
-  { pose proof (learned_of_in ws1 d (vidx u) Ld Habs) as Hi.
+  assert (Hin : In (1, x) (terms c)).
+  { assert (Hi : In (1, if nth (vidx u) ws1 0 <? 0 then - (1 + Z.of_nat (vidx u)) else 1 + Z.of_nat (vidx u))
+                    (terms c))
+      by (destruct Hc as [-> | ->]; [apply (learned_of_in ws1 d (vidx u) Ld Habs)|apply (full_of_in ws1 d (vidx u) Habs)]).
     replace (if nth (vidx u) ws1 0 <? 0 then - (1 + Z.of_nat (vidx u)) else 1 + Z.of_nat (vidx u))
       with x in Hi; [exact Hi|].
     rewrite (vidx_var u U2). rewrite Hw1'. unfold x.
     destruct (Z.ltb_spec 0 (- u)); [destruct (Z.ltb_spec 1 0); lia|destruct (Z.ltb_spec (-1) 0); lia]. }
-  assert (Hok : pbc_ok n (learned_of ws1 d) = true) by (rewrite <- Hlen1; apply learned_of_ok; lia).
+  assert (Hok : pbc_ok n c = true)
+    by (rewrite <- Hlen1; destruct Hc as [-> | ->]; [apply learned_of_ok; lia|apply full_of_ok]).
   pose proof (pbset_of_nth n _ (1, x) Hok Hin) as Hwx.
   unfold tidx, signed_w in Hwx. cbn [fst snd] in Hwx. fold (vidx x) in Hwx.
   assert (Hm2x : model_at md2 x = signed_lvl x nl).
@@ -1365,9 +1395,10 @@ Proof.
   - destruct (0 <? x); reflexivity.
   - rewrite Hm2x. unfold not_falsified. rewrite Hs2.
     destruct (0 <? x); cbn; rewrite orb_true_r; reflexivity.
-  - apply Z.ltb_lt. change (snd (pbset_of n (learned_of ws1 d))) with d.
+  - apply Z.ltb_lt. replace (snd (pbset_of n c)) with d by (destruct Hc as [-> | ->]; reflexivity).
     rewrite (pbset_of_nfsum n _ md2 Hok).
-    pose proof (learned_of_poss ws1 d md2) as Hp.
+    assert (Hp : poss md2 (terms c) <= nfsum md2 ws1)
+      by (destruct Hc as [-> | ->]; [apply learned_of_poss|apply full_of_poss]).
     replace (Z.abs (if 0 <? x then 1 else - (1))) with 1 by (destruct (0 <? x); reflexivity).
     (* nfsum md2 ws1 = nfsum md1 ws1 *)
     assert (E2 : nfsum md2 ws1 = nfsum md1 ws1).
@@ -1424,9 +1455,10 @@ Proof.
   intros HL us H. unfold cp_finish in H.
   destruct (round_to_one md' (vidx u) pb) as [pb1|] eqn:E1; [|discriminate].
   destruct (Z.ltb_spec (snd pb1) 1) as [Ld|Ld]; [discriminate|].
-  set (ts := sort_terms (set_terms 1 (fst pb1))) in *.
+  cbv zeta in H. set (ts := sort_terms (set_terms 1 (fst pb1))) in *.
   destruct (simplify_pb (PBC ts (snd pb1))) as [[us' rest]|] eqn:Es; [|discriminate].
-  destruct us' as [|u0 us']; [destruct rest; discriminate|]. injection H as <-.
+  destruct (forallb (is_fact md') us');
+    [destruct us' as [|u0 us']; [destruct rest; discriminate|discriminate]|]. injection H as <-.
   set (ws1 := fst pb1) in *. set (d := snd pb1) in *.
   destruct fin_u as [U1 [U2 [U3 [U4 [U5 U6]]]]].
   destruct fin_of as [F1 [F2 [F3 F4]]].
@@ -1470,7 +1502,7 @@ Proof.
   destruct (Z.ltb_spec (zsum (map fst ts) - d) 0) as [Lt|Lt]; [discriminate|].
   assert (Hth : zsum (map fst ts) - d = 0) by lia. rewrite Hth in Es.
   rewrite split_units_all in Es.
-  - assert (Hus : u0 :: us' = map snd ts) by (destruct (d - zsum (map fst ts) <=? 0); injection Es as <- _; reflexivity).
+  - assert (Hus : us' = map snd ts) by (destruct (d - zsum (map fst ts) <=? 0); injection Es as <- _; reflexivity).
     rewrite Hus.
     assert (Hin : In (1, - u) (set_terms 1 ws1)).
     { pose proof (set_terms_in ws1 1 (vidx u) ltac:(lia)) as Hi. rewrite Habs in Hi.
@@ -1496,10 +1528,12 @@ Lemma fin_learn_shape : forall c props nl, cp_finish pb md' u = CPLearn c props 
 Proof.
   intros c props nl H. unfold cp_finish in H.
   destruct (round_to_one md' (vidx u) pb) as [pb1|]; [|discriminate].
-  destruct (snd pb1 <? 1); [discriminate|].
+  destruct (snd pb1 <? 1); [discriminate|]. cbv zeta in H.
   destruct (simplify_pb _) as [[us rest]|]; [|discriminate].
-  destruct us as [|u0 us]; [|discriminate]. destruct rest as [c'|]; [|discriminate].
-  injection H as _ <- <-. split; reflexivity.
+  destruct (forallb (is_fact md') us); [|discriminate].
+  destruct us as [|u0 us].
+  - destruct rest as [c'|]; [|discriminate]. injection H as _ <- <-. split; reflexivity.
+  - injection H as _ <- <-. split; reflexivity.
 Qed.
 
 Lemma fin_bt1 : L = 1 -> backtrack_level md' (vidx u) pb = 1.
@@ -1507,6 +1541,29 @@ Proof.
   intros HL. destruct (bt_spec md' (vidx u) pb) as [B1 [_ B3]].
   destruct B3 as [B3|[j [B3 B4]]]; [exact B3|].
   pose proof (fin_md'_levels HL j). lia.
+Qed.
+
+Lemma mono_app : forall md a b, mono md (a ++ b) ->
+  forall x y, In x a -> In y b -> Z.abs (model_at md y) <= Z.abs (model_at md x).
+Proof.
+  intros md a b. induction a as [|h a IH]; intros H x y Hx Hy; [destruct Hx|].
+  cbn [app mono] in H. destruct H as [H1 H2]. destruct Hx as [<-|Hx].
+  - apply H1. apply in_or_app. right. exact Hy.
+  - apply IH; assumption.
+Qed.
+
+(* when the analysis ends at a level >= 2 the walk has not touched the facts *)
+Lemma fin_md'_facts : 2 <= L -> forall j, Z.abs (nth j md0 0) = 1 -> nth j md' 0 = nth j md0 0.
+Proof.
+  intros HL j Hj. rewrite Hmd', nth_zero_list.
+  destruct (existsb (fun l => Nat.eqb (vidx l) j) pre) eqn:E; [exfalso|reflexivity].
+  apply existsb_exists in E. destruct E as [l [Hl He]]. apply Nat.eqb_eq in He. subst j.
+  destruct W as [_ [_ [_ [W4 _]]]].
+  assert (Hmono : mono md0 (rev tr)) by (apply (mono_of md0 md0 (rev tr) W4); reflexivity).
+  rewrite Hsplit in Hmono.
+  destruct fin_of as [F1 [_ [F3 _]]]. destruct fin_u as [U1 _].
+  pose proof (mono_app md0 pre rt' Hmono l u Hl F1) as Hle.
+  rewrite <- U1 in Hle. unfold model_at in Hle at 2. lia.
 Qed.
 
 End Assert.
@@ -1529,7 +1586,7 @@ Definition good (P : problem) (n : nat) (s : pstate) : Prop :=
   reasons_in P (ps_ghost s) (ps_reason s) /\
   ((forall c, In c (ps_ghost s) -> entails P c) /\ incl (ps_learned s) (ps_ghost s)) /\
   facts P (ps_trail s) (ps_model s) /\
-  (forall u, In u (ps_pending s) -> u <> 0 /\ entails_lit P u) /\
+  (forall u, In u (ps_pending s) -> u <> 0 /\ (vidx u < n)%nat /\ entails_lit P u) /\
   (ps_pending s <> [] -> ps_lvl s = 1) /\
   (ps_trail s = [] -> ps_lvl s = 1).
 
@@ -1713,41 +1770,62 @@ Section UnitStep.
 Variable P : problem.
 Variable n : nat.
 
-Lemma unit_step_sound : forall tr md0 md' rs L lvl u,
-  wf n tr md0 rs lvl -> reasons_in P L rs -> facts P tr md0 -> u <> 0 -> entails_lit P u ->
+(* a unit that is a consequence of P and false at level 1: P has no model *)
+Lemma unit_false_unsat : forall tr md0 md' rs lvl u,
+  wf n tr md0 rs lvl -> facts P tr md0 -> u <> 0 -> entails_lit P u ->
   (forall j, nth j md' 0 = 0 \/ nth j md' 0 = nth j md0 0) ->
-  cleanup_bindings 1 tr md' rs = cleanup_bindings 1 tr md0 rs ->
-  match unit_step tr md' rs u with
-  | None => unsatP P
-  | Some (tr1, md1, rs1) => wf n tr1 md1 rs1 1 /\ reasons_in P L rs1 /\ facts P tr1 md1
-  end.
+  Z.abs (model_at md' u) = 1 -> lit_false md' u = true -> unsatP P.
 Proof.
-  intros tr md0 md' rs L lvl u W HR HF Hu0 Hue Hmd Hcl. unfold unit_step.
-  destruct ((Z.abs (model_at md' u) =? 1) && lit_false md' u) eqn:Et.
-  - apply andb_true_iff in Et. destruct Et as [E1 E2]. apply Z.eqb_eq in E1.
-    assert (Ea : model_at md' u = model_at md0 u).
-    { unfold model_at in *. destruct (Hmd (vidx u)) as [E|E]; [rewrite E in E1; cbn in E1; lia|exact E]. }
-    rewrite Ea in E1. unfold lit_false in E2. rewrite Ea in E2.
-    destruct W as [_ [_ [_ [W4 [W5 _]]]]].
-    assert (Hnz : nth (vidx u) md0 0 <> 0) by (unfold model_at in E1; lia).
-    destruct (W5 _ Hnz) as [l [Hl Hv]].
-    destruct (trail_okb_in md0 (rev tr) l W4 (proj1 (in_rev tr l) Hl)) as [Hl0 Hsg].
-    assert (Hml : model_at md0 l = model_at md0 u) by (unfold model_at; rewrite Hv; reflexivity).
-    intros m. destruct (sat_problem m P) eqn:Em; [exfalso|reflexivity].
-    assert (Hfl : entails_lit P l) by (apply HF; [exact Hl|rewrite Hml; exact E1]).
-    pose proof (var_of_lit_val m l Hl0 (Hfl m Em)) as V1.
-    pose proof (var_of_lit_val m u Hu0 (Hue m Em)) as V2.
-    rewrite Hv in V1. rewrite V1 in V2. rewrite <- Hsg, Hml in V2.
-    apply andb_true_iff in E2. destruct E2 as [_ E2]. rewrite V2 in E2. rewrite eqb_reflx in E2. discriminate.
-  - rewrite Hcl. destruct (cleanup_bindings 1 tr md0 rs) as [[tr1 md1] rs1] eqn:Ec.
-    destruct (cleanup_wf n tr md0 rs lvl 1 tr1 md1 rs1 W ltac:(lia) Ec) as [W' [d [Htr [Hm1 Hr1]]]].
-    assert (HR1 : reasons_in P L rs1) by (rewrite Hr1; apply reasons_in_cleanup; exact HR).
-    assert (HF1 : facts P tr1 md1) by (rewrite Hm1; apply (facts_cleanup P tr md0 tr1 d Htr HF)).
-    destruct (free_lit md1 u) eqn:Ef.
-    + split; [|split; [exact HR1|]].
-      * apply (push_wf n tr1 md1 rs1 1 u 1 None W' Ef); [lia|left; reflexivity].
-      * apply (facts_push P n tr1 md1 rs1 1 u 1 W' Ef HF1); [intros _; exact Hue|lia].
-    + split; [exact W'|]. split; assumption.
+  intros tr md0 md' rs lvl u W HF Hu0 Hue Hmd E1 E2.
+  assert (Ea : model_at md' u = model_at md0 u).
+  { unfold model_at in *. destruct (Hmd (vidx u)) as [E|E]; [rewrite E in E1; cbn in E1; lia|exact E]. }
+  rewrite Ea in E1. unfold lit_false in E2. rewrite Ea in E2.
+  destruct W as [_ [_ [_ [W4 [W5 _]]]]].
+  assert (Hnz : nth (vidx u) md0 0 <> 0) by (unfold model_at in E1; lia).
+  destruct (W5 _ Hnz) as [l [Hl Hv]].
+  destruct (trail_okb_in md0 (rev tr) l W4 (proj1 (in_rev tr l) Hl)) as [Hl0 Hsg].
+  assert (Hml : model_at md0 l = model_at md0 u) by (unfold model_at; rewrite Hv; reflexivity).
+  intros m. destruct (sat_problem m P) eqn:Em; [exfalso|reflexivity].
+  assert (Hfl : entails_lit P l) by (apply HF; [exact Hl|rewrite Hml; exact E1]).
+  pose proof (var_of_lit_val m l Hl0 (Hfl m Em)) as V1.
+  pose proof (var_of_lit_val m u Hu0 (Hue m Em)) as V2.
+  rewrite Hv in V1. rewrite V1 in V2. rewrite <- Hsg, Hml in V2.
+  apply andb_true_iff in E2. destruct E2 as [_ E2]. rewrite V2 in E2. rewrite eqb_reflx in E2. discriminate.
+Qed.
+
+(* a unit that is not at level 1 is free after cleanupBindings(1), and binding it
+   at level 1 keeps everything in order *)
+Lemma unit_push_good : forall tr md0 md' rs G lvl u tr1 md1 rs1,
+  wf n tr md0 rs lvl -> reasons_in P G rs -> facts P tr md0 ->
+  u <> 0 -> (vidx u < n)%nat -> entails_lit P u ->
+  (forall j, nth j md' 0 = 0 \/ nth j md' 0 = nth j md0 0) ->
+  (forall j, Z.abs (nth j md0 0) = 1 -> nth j md' 0 = nth j md0 0) ->
+  cleanup_bindings 1 tr md' rs = cleanup_bindings 1 tr md0 rs ->
+  Z.abs (model_at md' u) <> 1 ->
+  cleanup_bindings 1 tr md' rs = (tr1, md1, rs1) ->
+  wf n (tr1 ++ [u]) (push md1 u 1) rs1 1 /\ reasons_in P G rs1 /\
+  facts P (tr1 ++ [u]) (push md1 u 1).
+Proof.
+  intros tr md0 md' rs G lvl u tr1 md1 rs1 W HR HF Hu0 Hur Hue Hmd Hmd1 Hcl Hn1 Ec.
+  rewrite Hcl in Ec.
+  destruct (cleanup_wf n tr md0 rs lvl 1 tr1 md1 rs1 W ltac:(lia) Ec) as [W' [d [Htr [Hm1 Hr1]]]].
+  assert (HR1 : reasons_in P G rs1) by (rewrite Hr1; apply reasons_in_cleanup; exact HR).
+  assert (HF1 : facts P tr1 md1) by (rewrite Hm1; apply (facts_cleanup P tr md0 tr1 d Htr HF)).
+  assert (Hfree : free_lit md1 u = true).
+  { apply free_lit_intro; [exact Hu0|destruct W' as [W1 _]; rewrite W1; exact Hur|].
+    destruct (Z.eq_dec (model_at md1 u) 0) as [E|E]; [exact E|exfalso].
+    destruct W' as [_ [_ [_ [_ [W5 [W6 _]]]]]].
+    destruct (W5 (vidx u) E) as [l [Hl Hv]]. specialize (W6 l Hl).
+    assert (Hml : model_at md1 l = model_at md1 u) by (unfold model_at; rewrite Hv; reflexivity).
+    assert (H1 : Z.abs (model_at md1 u) = 1) by (rewrite <- Hml; rewrite <- Hml in E; lia).
+    assert (H0 : model_at md1 u = model_at md0 u).
+    { assert (Hz : model_at md1 u = 0 \/ model_at md1 u = model_at md0 u).
+      { unfold model_at. rewrite Hm1, nth_zero_list. destruct (existsb _ d); [left|right]; reflexivity. }
+      destruct Hz as [Hz|Hz]; [congruence|exact Hz]. }
+    rewrite H0 in H1. apply Hn1. unfold model_at in *. rewrite (Hmd1 _ H1). exact H1. }
+  split; [|split; [exact HR1|]].
+  - apply (push_wf n tr1 md1 rs1 1 u 1 None W' Hfree); [lia|left; reflexivity].
+  - apply (facts_push P n tr1 md1 rs1 1 u 1 W' Hfree HF1); [intros _; exact Hue|lia].
 Qed.
 
 End UnitStep.
@@ -1791,18 +1869,31 @@ Proof.
 Qed.
 
 Lemma cp_finish_units : forall pb md u us, cp_finish pb md u = CPUnits us ->
-  us <> [] /\ forall x, In x us -> x <> 0.
+  us <> [] /\
+  (forall x, In x us -> x <> 0 /\ (vidx x < List.length (fst pb))%nat) /\
+  exists x, In x us /\ is_fact md x = false.
 Proof.
   intros pb md u us H. unfold cp_finish in H.
-  destruct (round_to_one md (vidx u) pb) as [pb1|]; [|discriminate].
-  destruct (snd pb1 <? 1); [discriminate|].
+  destruct (round_to_one md (vidx u) pb) as [pb1|] eqn:E1; [|discriminate].
+  destruct (snd pb1 <? 1); [discriminate|]. cbv zeta in H.
   destruct (simplify_pb (PBC (sort_terms (set_terms 1 (fst pb1))) (snd pb1))) as [[us' rest]|] eqn:Es;
     [|discriminate].
-  destruct us' as [|u0 us']; [destruct rest; discriminate|]. injection H as <-.
-  split; [discriminate|]. intros x Hx.
-  destruct (simplify_units_in _ _ _ Es x Hx) as [w Hw]. cbn [terms] in Hw.
-  apply (Permutation_in _ (Proofs.PBNorm.sort_terms_perm _)) in Hw.
-  pose proof (set_terms_bounds _ 1 _ ltac:(lia) Hw) as B. cbn [snd] in B. lia.
+  destruct (forallb (is_fact md) us') eqn:Ef;
+    [destruct us' as [|u0 us']; [destruct rest; discriminate|discriminate]|]. injection H as <-.
+  split; [intros ->; discriminate|]. split.
+  - intros x Hx. destruct (simplify_units_in _ _ _ Es x Hx) as [w Hw]. cbn [terms] in Hw.
+    apply (Permutation_in _ (Proofs.PBNorm.sort_terms_perm _)) in Hw.
+    pose proof (set_terms_bounds _ 1 _ ltac:(lia) Hw) as B. cbn [snd] in B.
+    rewrite (round_length _ _ _ _ E1) in B. unfold vidx. split; lia.
+  - destruct (forallb_forall (is_fact md) us') as [_ Hall].
+    destruct (existsb (fun x => negb (is_fact md x)) us') eqn:Ee.
+    + apply existsb_exists in Ee. destruct Ee as [x [Hx Hn]]. exists x. split; [exact Hx|].
+      apply negb_true_iff in Hn. exact Hn.
+    + exfalso. rewrite Hall in Ef; [discriminate|]. intros x Hx.
+      destruct (is_fact md x) eqn:E; [reflexivity|].
+      assert (existsb (fun x0 => negb (is_fact md x0)) us' = true)
+        by (apply existsb_exists; exists x; split; [exact Hx|rewrite E; reflexivity]).
+      congruence.
 Qed.
 
 Lemma walk_length : forall pb rt md,
@@ -1836,18 +1927,19 @@ Proof.
   apply zero_list_length.
 Qed.
 
-Lemma units_succ_len : forall n s md us, List.length md = n ->
+Lemma units_succ_len : forall n s us md, List.length md = n ->
   match units_succ s md us with
   | PRunning s' => List.length (ps_model s') = n
   | PFinal (PSat _) => False
   | _ => True
   end.
 Proof.
-  intros n s md us H. unfold units_succ. destruct us as [|u rest]; [exact H|].
-  unfold unit_step. destruct ((Z.abs (model_at md u) =? 1) && lit_false md u); [exact I|].
+  intros n s us. induction us as [|u rest IH]; intros md H; cbn [units_succ]; [exact H|].
+  destruct ((Z.abs (model_at md u) =? 1) && lit_false md u); [exact I|].
+  destruct (Z.abs (model_at md u) =? 1); [apply IH; exact H|].
   destruct (cleanup_bindings 1 (ps_trail s) md (ps_reason s)) as [[tr1 md1] rs1] eqn:E.
   pose proof (cleanup_length _ _ _ _ _ _ _ E) as HL.
-  destruct (free_lit md1 u); cbn [ps_model]; [unfold push; rewrite set_nth_length|]; lia.
+  cbn [ps_model]. unfold push. rewrite set_nth_length. lia.
 Qed.
 
 Lemma fold_push_length : forall props md v,
@@ -1887,64 +1979,148 @@ Proof.
   rewrite E. reflexivity.
 Qed.
 
+(* skipped = already a fact *)
+Lemma skip_is_fact : forall md u, Z.abs (model_at md u) = 1 ->
+  is_fact md u = negb (lit_false md u).
+Proof.
+  intros md u H. unfold is_fact, lit_false. rewrite H. cbn [Z.eqb Pos.eqb andb].
+  destruct (Z.eqb_spec (model_at md u) 0) as [E|E]; [rewrite E in H; cbn in H; lia|].
+  cbn [negb andb]. rewrite negb_involutive. reflexivity.
+Qed.
+
 (* the units branch in a doomed situation *)
-Lemma units_doom : forall P n tr md rs L lvl pend G md' us,
+Definition doomed_cf (P : problem) (n : nat) (cf : pconfig) : Prop :=
+  match cf with
+  | PRunning s' => List.length (ps_model s') = n /\ doom P s'
+  | PFinal PUnsat => unsatP P
+  | _ => False
+  end.
+
+Lemma doomed_ginv : forall P n cf, doomed_cf P n cf -> ginv P n cf.
+Proof.
+  intros P n [s'|[m|]|] H; cbn [doomed_cf ginv] in *; try exact H; try contradiction.
+  split; [exact (proj1 H)|right; exact (proj2 H)].
+Qed.
+
+Lemma units_doom : forall P n tr md rs L lvl pend G us md',
   unsatP P -> List.length md' = n -> (forall j, Z.abs (nth j md' 0) <= 1) ->
   (exists x, In x us /\ Z.abs (model_at md' x) = 1 /\ lit_false md' x = true) ->
-  ginv P n (units_succ (PState tr md rs L lvl pend G) md' us).
+  doomed_cf P n (units_succ (PState tr md rs L lvl pend G) md' us).
 Proof.
-  intros P n tr md rs L lvl pend G md' us HU Hlen Hlv [x [Hx [Hx1 Hx2]]].
-  destruct us as [|u0 rest]; [destruct Hx|]. unfold units_succ, unit_step. cbn [ps_trail ps_reason ps_learned ps_ghost].
+  intros P n tr md rs L lvl pend G us. induction us as [|u0 rest IH];
+    intros md' HU Hlen Hlv [x [Hx [Hx1 Hx2]]]; [destruct Hx|].
+  cbn [units_succ ps_trail ps_reason ps_learned ps_ghost].
   destruct ((Z.abs (model_at md' u0) =? 1) && lit_false md' u0) eqn:Et; [exact HU|].
-  rewrite (cleanup_noop 1 tr md' rs Hlv).
   assert (Hxr : In x rest).
   { destruct Hx as [->|Hx]; [|exact Hx]. rewrite Hx1, Hx2 in Et. cbn in Et. discriminate. }
-  destruct (free_lit md' u0) eqn:Ef; cbn [ginv ps_model].
-  - destruct (free_lit_spec _ _ Ef) as [_ [Hlt Hz]].
+  destruct (Z.eqb_spec (Z.abs (model_at md' u0)) 1) as [E1|E1].
+  - apply IH; try assumption. exists x. split; [exact Hxr|]. split; assumption.
+  - rewrite (cleanup_noop 1 tr md' rs Hlv). cbn [doomed_cf ps_model].
     assert (Hne : vidx x <> vidx u0).
-    { intros E. unfold model_at in Hx1, Hz. rewrite E, Hz in Hx1. cbn in Hx1. lia. }
-    split; [unfold push; rewrite set_nth_length; exact Hlen|]. right.
+    { intros E. apply E1. unfold model_at in *. rewrite <- E. exact Hx1. }
+    split; [unfold push; rewrite set_nth_length; exact Hlen|].
     split; [exact HU|]. cbn [ps_lvl ps_model ps_pending]. split; [reflexivity|]. split.
     + intros j. unfold push. destruct (Nat.eq_dec j (vidx u0)) as [->|Ne].
-      * rewrite nth_set_nth_same by exact Hlt. rewrite signed_lvl_abs; lia.
+      * destruct (Nat.lt_ge_cases (vidx u0) (List.length md')) as [Lt|Ge].
+        -- rewrite nth_set_nth_same by exact Lt. rewrite signed_lvl_abs; lia.
+        -- rewrite nth_overflow by (rewrite set_nth_length; exact Ge). cbn. lia.
       * rewrite nth_set_nth_neq by exact Ne. apply Hlv.
     + exists x. split; [exact Hxr|]. unfold lit_false. rewrite (model_at_push_other md' u0 1 x Hne).
-      split; [exact Hx1|exact Hx2].
-  - split; [exact Hlen|]. right. split; [exact HU|]. cbn [ps_lvl ps_model ps_pending].
-    split; [reflexivity|]. split; [exact Hlv|]. exists x. split; [exact Hxr|]. split; assumption.
+      split; assumption.
 Qed.
 
 Lemma cp_empty_trail : forall md rs c,
   cutting_planes_full (State [] md rs c 1) = (CPUnsat, md).
 Proof. reflexivity. Qed.
 
+(* what a conflict step achieves *)
+Definition new_fact (s s' : pstate) : Prop :=
+  exists x, In x (ps_trail s') /\ Z.abs (model_at (ps_model s') x) = 1 /\
+            Z.abs (model_at (ps_model s) x) <> 1.
+
+Definition new_asserting (n : nat) (s s' : pstate) : Prop :=
+  exists c' x,
+    ps_ghost s' = c' :: ps_ghost s /\ ps_learned s' = c' :: ps_learned s /\
+    2 <= ps_lvl s' < ps_lvl s /\
+    reason_at (ps_reason s') x = Some c' /\
+    Z.abs (model_at (ps_model s') x) = ps_lvl s' /\
+    reason_okb n (ps_model s') c' x = true.
+
+Definition progress (P : problem) (n : nat) (s : pstate) (cf : pconfig) : Prop :=
+  match cf with
+  | PFinal PUnsat => True
+  | PRunning s' =>
+    doom P s' \/ (ps_ghost s' = ps_ghost s /\ new_fact s s') \/ new_asserting n s s'
+  | _ => False
+  end.
+
+Lemma doomed_progress : forall P n s cf, doomed_cf P n cf -> progress P n s cf.
+Proof.
+  intros P n s [s'|[m|]|] H; cbn [doomed_cf progress] in *; try exact I; try contradiction.
+  left. exact (proj2 H).
+Qed.
+
 Section ConflictStep.
 Variable P : problem.
 Variable n : nat.
 
-Lemma units_branch_good : forall tr md0 rs L lvl G md' us,
+(* the units branch from well-formed bindings md0; md' is md0 (next unit of a
+   pending list) or what cuttingPlanes left of it after an analysis that ended
+   at a level >= 2 *)
+Lemma units_branch_good : forall tr md0 rs L lvl G us md',
   wf n tr md0 rs lvl -> reasons_in P G rs ->
   ((forall c, In c G -> entails P c) /\ incl L G) -> facts P tr md0 ->
   (forall j, nth j md' 0 = 0 \/ nth j md' 0 = nth j md0 0) ->
+  (forall j, Z.abs (nth j md0 0) = 1 -> nth j md' 0 = nth j md0 0) ->
   cleanup_bindings 1 tr md' rs = cleanup_bindings 1 tr md0 rs ->
-  us <> [] -> (forall x, In x us -> x <> 0 /\ entails_lit P x) ->
-  ginv P n (units_succ (PState tr md0 rs L lvl [] G) md' us).
+  (forall x, In x us -> x <> 0 /\ (vidx x < n)%nat /\ entails_lit P x) ->
+  (md' = md0 /\ lvl = 1) \/ (exists x, In x us /\ is_fact md' x = false) ->
+  ginv P n (units_succ (PState tr md0 rs L lvl [] G) md' us) /\
+  ((exists x, In x us /\ is_fact md' x = false) ->
+   match units_succ (PState tr md0 rs L lvl [] G) md' us with
+   | PFinal PUnsat => True
+   | PRunning s' => ps_ghost s' = G /\ new_fact (PState tr md0 rs L lvl [] G) s'
+   | _ => False
+   end).
 Proof.
-  intros tr md0 rs L lvl G md' us W HR HL HF Hmd Hcl Hne Hus.
-  destruct us as [|u rest]; [congruence|]. unfold units_succ. cbn [ps_trail ps_reason ps_learned ps_ghost].
-  destruct (Hus u (or_introl eq_refl)) as [Hu0 Hue].
-  pose proof (unit_step_sound P n tr md0 md' rs G lvl u W HR HF Hu0 Hue Hmd Hcl) as HS.
-  destruct (unit_step tr md' rs u) as [[[tr1 md1] rs1]|]; [|exact HS].
-  destruct HS as [W' [HR' HF']]. cbn [ginv ps_model].
-  split; [destruct W' as [W1 _]; exact W1|]. left.
-  split; [exact W'|]. split; [exact HR'|]. split; [exact HL|]. split; [exact HF'|].
-  cbn [ps_pending ps_lvl ps_trail]. split; [intros x Hx; apply Hus; right; exact Hx|].
-  split; reflexivity.
+  intros tr md0 rs L lvl G us. induction us as [|u rest IH];
+    intros md' W HR HL HF Hmd Hmd1 Hcl Hus Hex.
+  - split; [|intros [x [[] _]]].
+    destruct Hex as [[-> ->]|[x [[] _]]]. cbn [units_succ ginv ps_trail ps_model ps_reason ps_learned ps_ghost].
+    split; [destruct W as [W1 _]; exact W1|]. left.
+    split; [exact W|]. split; [exact HR|]. split; [exact HL|]. split; [exact HF|].
+    cbn [ps_pending ps_lvl ps_trail]. split; [intros x []|]. split; [intros H; congruence|reflexivity].
+  - cbn [units_succ ps_trail ps_reason ps_learned ps_ghost].
+    destruct (Hus u (or_introl eq_refl)) as [Hu0 [Hur Hue]].
+    destruct (Z.eqb_spec (Z.abs (model_at md' u)) 1) as [E1|E1]; cbn [andb].
+    + destruct (lit_false md' u) eqn:E2.
+      * split; [|intros _; exact I].
+        cbn [ginv]. exact (unit_false_unsat P n tr md0 md' rs lvl u W HF Hu0 Hue Hmd E1 E2).
+      * assert (Hrest : forall x, In x (u :: rest) -> is_fact md' x = false -> In x rest).
+        { intros x [<-|Hx] Hxf; [|exact Hx]. rewrite (skip_is_fact md' u E1), E2 in Hxf. discriminate. }
+        destruct (IH md' W HR HL HF Hmd Hmd1 Hcl (fun x Hx => Hus x (or_intror Hx))) as [I1 I2].
+        { destruct Hex as [Hex|[x [Hx Hxf]]]; [left; exact Hex|right; exists x; split; [apply Hrest|]; assumption]. }
+        split; [exact I1|]. intros [x [Hx Hxf]]. apply I2. exists x. split; [apply Hrest|]; assumption.
+    + destruct (cleanup_bindings 1 tr md' rs) as [[tr1 md1] rs1] eqn:Ec.
+      destruct (unit_push_good P n tr md0 md' rs G lvl u tr1 md1 rs1 W HR HF Hu0 Hur Hue Hmd Hmd1 (eq_trans Ec Hcl) E1 Ec)
+        as [W' [HR' HF']].
+      split.
+      * cbn [ginv ps_model]. split; [destruct W' as [W1 _]; exact W1|]. left.
+        split; [exact W'|]. split; [exact HR'|]. split; [exact HL|]. split; [exact HF'|].
+        cbn [ps_pending ps_lvl ps_trail]. split; [intros x Hx; apply Hus; right; exact Hx|].
+        split; [reflexivity|]. intros H. destruct tr1; discriminate.
+      * intros _. cbn [ps_ghost]. split; [reflexivity|]. exists u.
+        cbn [ps_trail ps_model]. split; [apply in_or_app; right; left; reflexivity|]. split.
+        -- assert (Hl1 : List.length md1 = n)
+             by (destruct W' as [W1 _]; unfold push in W1; rewrite set_nth_length in W1; exact W1).
+           rewrite model_at_push_same by (rewrite Hl1; exact Hur). rewrite signed_lvl_abs; lia.
+        -- intros E. apply E1. unfold model_at in *. rewrite (Hmd1 _ E). exact E.
 Qed.
 
 Lemma conflict_good : forall tr md rs L lvl G c,
   good P n (PState tr md rs L lvl [] G) -> In c (P ++ L) -> confl_chk n md c = true ->
-  ginv P n (conflict_succ (PState tr md rs L lvl [] G) c).
+  ginv P n (conflict_succ (PState tr md rs L lvl [] G) c) /\
+  progress P n (PState tr md rs L lvl [] G) (conflict_succ (PState tr md rs L lvl [] G) c).
 Proof.
   intros tr md rs L lvl G c [W [G2 [[G3 G3'] [G4 [G5 [G6 G7]]]]]] Hc0 Hk.
   assert (Hc : In c (P ++ G)) by (apply (in_app_incl P L G c G3'); exact Hc0).
@@ -1977,7 +2153,7 @@ Proof.
     rewrite cp_empty_trail in Ecp.
     injection Ecp as <- _. exact I. }
   destruct r as [| | | |us|c' props nl]; try (destruct Hpanic).
-  - (* Unsat *) cbn [ginv]. apply (unsat_app P G G3). exact Hs.
+  - (* Unsat *) split; [|exact I]. cbn [ginv]. apply (unsat_app P G G3). exact Hs.
   - (* units *)
     destruct HFin as [pb [pre [rt' [L_ [u [F1 [F2 [F3 [F4 [F5 [F6 F7]]]]]]]]]]].
     destruct (fin_u n rs tr md lvl W pb pre rt' md' L_ u F1 F4 F5 F6) as [U1 [U2 [U3 [U4 [U5 U6]]]]].
@@ -1994,17 +2170,28 @@ Proof.
       { unfold lit_false, model_at. rewrite vidx_opp. fold (model_at md' u). split; [lia|].
         rewrite U1. destruct (Z.eqb_spec (model_at md u) 0) as [E0|E0]; [congruence|]. rewrite U3.
         destruct (Z.ltb_spec 0 u); destruct (Z.ltb_spec 0 (- u)); try reflexivity; lia. }
-      apply units_doom; [exact HU|exact Hlen'| |].
-      * eapply fin_md'_levels; eassumption.
-      * exists (- u). split; [|exact Hkill].
-        eapply fin_units_all; try eassumption. symmetry. exact F7.
-    + destruct (cp_finish_units _ _ _ _ (eq_sym F7)) as [Hne Hnz].
-      apply (units_branch_good tr md rs L lvl G md' us W G2 (conj G3 G3') G4).
-      * exact (fin_md'_nth md pre md' F2).
-      * apply (fin_cleanup n P' rs G2 tr md pb pre rt' md' L_ u F1 F2 F4 F5 F6 1). lia.
-      * exact Hne.
-      * intros x Hx. split; [apply Hnz; exact Hx|]. intros m Hm.
-        specialize (Hs m (sat_app m P G Hm G3)). rewrite forallb_forall in Hs. apply Hs. exact Hx.
+      assert (Hd : doomed_cf P n (units_succ s md' us)).
+      { apply units_doom; [exact HU|exact Hlen'| |].
+        * eapply fin_md'_levels; eassumption.
+        * exists (- u). split; [|exact Hkill].
+          eapply fin_units_all; try eassumption. symmetry. exact F7. }
+      split; [apply doomed_ginv|apply doomed_progress]; exact Hd.
+    + destruct (cp_finish_units _ _ _ _ (eq_sym F7)) as [Hne [Hnz Hnf]].
+      assert (HLen : List.length (fst pb) = n) by (exact (proj1 (proj2 F3))).
+      assert (Hp1 := fin_md'_nth md pre md' F2).
+      assert (Hp2 : forall j, Z.abs (nth j md 0) = 1 -> nth j md' 0 = nth j md 0)
+        by (eapply fin_md'_facts; try eassumption; lia).
+      assert (Hp3 : cleanup_bindings 1 tr md' rs = cleanup_bindings 1 tr md rs)
+        by (apply (fin_cleanup n P' rs G2 tr md pb pre rt' md' L_ u F1 F2 F4 F5 F6 1); lia).
+      assert (Hp4 : forall x, In x us -> x <> 0 /\ (vidx x < n)%nat /\ entails_lit P x).
+      { intros x Hx. destruct (Hnz x Hx) as [Hx0 Hxr]. rewrite HLen in Hxr.
+        split; [exact Hx0|]. split; [exact Hxr|]. intros m Hm.
+        specialize (Hs m (sat_app m P G Hm G3)). rewrite forallb_forall in Hs. apply Hs. exact Hx. }
+      destruct (units_branch_good tr md rs L lvl G us md' W G2 (conj G3 G3') G4 Hp1 Hp2 Hp3 Hp4 (or_intror Hnf))
+        as [I1 I2].
+      split; [exact I1|]. specialize (I2 Hnf). fold s in I2.
+      destruct (units_succ s md' us) as [s'|[m|]|]; cbn [progress]; try exact I2.
+      right. left. exact I2.
   - (* a learned constraint *)
     destruct HFin as [pb [pre [rt' [L_ [u [F1 [F2 [F3 [F4 [F5 [F6 F7]]]]]]]]]]].
     destruct (fin_u n rs tr md lvl W pb pre rt' md' L_ u F1 F4 F5 F6) as [U1 [U2 [U3 [U4 [U5 U6]]]]].
@@ -2026,9 +2213,11 @@ Proof.
       destruct Hshape as [-> Hnl].
       assert (Hbt : backtrack_level md' (vidx u) pb = 1) by (eapply fin_bt1; eassumption).
       rewrite Hnl, Hbt. cbn [Z.eqb Pos.eqb].
-      apply units_doom; [exact HU|exact Hlen'| |].
-      * eapply fin_md'_levels; eassumption.
-      * exists (- u). split; [left; reflexivity|exact Hkill].
+      assert (Hd : doomed_cf P n (units_succ s md' [- u])).
+      { apply units_doom; [exact HU|exact Hlen'| |].
+        * eapply fin_md'_levels; eassumption.
+        * exists (- u). split; [left; reflexivity|exact Hkill]. }
+      split; [apply doomed_ginv|apply doomed_progress]; exact Hd.
     + assert (HL2 : 2 <= L_) by lia.
       destruct (fin_learn n P' rs G2 tr md lvl W pb pre rt' md' L_ u F1 F2 F3 F4 F5 F6 c' props nl HL2 (eq_sym F7))
         as [Hprops [Hnl Hcut]].
@@ -2054,12 +2243,23 @@ Proof.
           - rewrite model_at_push_same by exact Hxlt. apply signed_lvl_sign; [lia|exact Hx0].
           - apply (Hc'e m Hm).
           - intros j Hj Hnz. unfold push in *. rewrite nth_set_nth_neq in * by exact Hj. apply Hag. exact Hnz. }
-        apply (units_branch_good tr md rs L lvl G md' [- u] W G2 (conj G3 G3') G4).
-        -- exact (fin_md'_nth md pre md' F2).
-        -- rewrite Ec1. rewrite <- Ec1.
-           apply (fin_cleanup n P' rs G2 tr md pb pre rt' md' L_ u F1 F2 F4 F5 F6 1). lia.
-        -- discriminate.
-        -- intros x [<-|[]]. split; assumption.
+        assert (Hxr : (vidx (- u) < n)%nat) by (destruct W1 as [W11 _]; rewrite <- W11; exact Hxlt).
+        assert (Hp1 := fin_md'_nth md pre md' F2).
+        assert (Hp2 : forall j, Z.abs (nth j md 0) = 1 -> nth j md' 0 = nth j md 0)
+          by (eapply fin_md'_facts; try eassumption).
+        assert (Hp3 : cleanup_bindings 1 tr md' rs = cleanup_bindings 1 tr md rs)
+          by (apply (fin_cleanup n P' rs G2 tr md pb pre rt' md' L_ u F1 F2 F4 F5 F6 1); lia).
+        assert (Hp4 : forall x, In x [- u] -> x <> 0 /\ (vidx x < n)%nat /\ entails_lit P x)
+          by (intros x [<-|[]]; split; [exact Hx0|]; split; [exact Hxr|exact Hxe]).
+        assert (Hnf : exists x, In x [- u] /\ is_fact md' x = false).
+        { exists (- u). split; [left; reflexivity|].
+          unfold is_fact, model_at. rewrite vidx_opp. fold (model_at md' u).
+          destruct (Z.eqb_spec (Z.abs (model_at md' u)) 1) as [E|E]; [lia|reflexivity]. }
+        destruct (units_branch_good tr md rs L lvl G [- u] md' W G2 (conj G3 G3') G4 Hp1 Hp2 Hp3 Hp4 (or_intror Hnf))
+          as [I1 I2].
+        split; [exact I1|]. specialize (I2 Hnf). fold s in I2.
+        destruct (units_succ s md' [- u]) as [s'|[m|]|]; cbn [progress]; try exact I2.
+        right. left. exact I2.
       * (* back-jump to level nl >= 2 *)
         unfold s. cbn [ps_trail ps_reason ps_learned ps_ghost].
         rewrite (fin_cleanup n P' rs G2 tr md pb pre rt' md' L_ u F1 F2 F4 F5 F6 nl B2).
@@ -2068,8 +2268,22 @@ Proof.
         destruct (cleanup_wf n tr md rs lvl nl k md1 rs1 W B1 Ec1) as [W1 [d [Htr [Hm1 Hr1]]]].
         assert (HF1 : facts P k md1) by (rewrite Hm1; apply (facts_cleanup P tr md k d Htr G4)).
         assert (HR1 : reasons_in P G rs1) by (rewrite Hr1; apply reasons_in_cleanup; exact G2).
-        cbn [fold_left ginv ps_model].
+        cbn [fold_left].
         pose proof (push_wf n k md1 rs1 nl (- u) nl (Some c') W1 Hfree ltac:(lia) Hrok) as W2.
+        destruct (free_lit_spec _ _ Hfree) as [Hx0 [Hxlt Hxz]].
+        assert (Hprog : progress P n (PState tr md rs L lvl [] G)
+                  (PRunning (PState (k ++ [- u]) (push md1 (- u) nl)
+                                    (set_nth_g (vidx (- u)) (Some c') rs1) (c' :: L) nl [] (c' :: G)))).
+        { cbn [progress]. right. right. exists c', (- u).
+          cbn [ps_trail ps_model ps_reason ps_learned ps_lvl ps_pending ps_ghost].
+          split; [reflexivity|]. split; [reflexivity|]. split.
+          - destruct W as [_ [_ [_ [_ [_ [W6 _]]]]]]. specialize (W6 u U5). rewrite <- U1 in W6. lia.
+          - split; [|split; [|exact Hrok]].
+            + unfold reason_at. apply nth_set_nth_g_same.
+              destruct W1 as [W11 [W12 _]]. rewrite W12, <- W11. exact Hxlt.
+            + rewrite model_at_push_same by exact Hxlt. apply signed_lvl_abs. lia. }
+        split; [|exact Hprog].
+        cbn [ginv ps_model].
         split; [destruct W2 as [W21 _]; exact W21|]. left.
         split; [exact W2|]. cbn [ps_trail ps_model ps_reason ps_learned ps_lvl ps_pending ps_ghost].
         split; [|split; [|split; [|split; [|split]]]].
@@ -2110,7 +2324,10 @@ Qed.
 
 Lemma units_succ_pending : forall tr md rs L lvl pend G md' us,
   units_succ (PState tr md rs L lvl pend G) md' us = units_succ (PState tr md rs L lvl [] G) md' us.
-Proof. intros. destruct us; reflexivity. Qed.
+Proof.
+  intros tr md rs L lvl pend G md' us. induction us as [|u r IH]; [reflexivity|].
+  cbn [units_succ ps_trail ps_reason ps_learned ps_ghost]. rewrite IH. reflexivity.
+Qed.
 
 Lemma doom_propagate : forall P tr md rs L lvl pend G l tr' rs',
   doom P (PState tr md rs L lvl pend G) -> free_lit md l = true ->
@@ -2144,16 +2361,17 @@ Proof.
     match goal with Hp : prop_chk _ _ _ _ _ = true |- _ =>
       unfold prop_chk in Hp; apply andb_true_iff in Hp; eapply doom_propagate; [exact Ha|exact (proj1 Hp)] end.
   - (* conflict *)
-    destruct Ha as [Ha|Ha]; [apply conflict_good; assumption|destruct (doom_no_pending _ _ _ _ _ _ _ Ha)].
+    destruct Ha as [Ha|Ha]; [eapply proj1; apply conflict_good; assumption|destruct (doom_no_pending _ _ _ _ _ _ _ Ha)].
   - (* next unit *)
     destruct Ha as [Ha|Ha].
     + rewrite units_succ_pending.
-      destruct Ha as [W [G2 [G3 [G4 [G5 _]]]]].
+      destruct Ha as [W [G2 [G3 [G4 [G5 [G6 _]]]]]].
       cbn [ps_trail ps_model ps_reason ps_learned ps_lvl ps_pending ps_ghost] in *.
-      apply (units_branch_good P n tr md rs L lvl G md (u :: rest) W G2 G3 G4);
-        [intros j; right; reflexivity|reflexivity|discriminate|exact G5].
+      apply (units_branch_good P n tr md rs L lvl G (u :: rest) md W G2 G3 G4);
+        [intros j; right; reflexivity|intros j _; reflexivity|reflexivity|exact G5|].
+      left. split; [reflexivity|apply G6; discriminate].
     + destruct Ha as [HU [_ [Hlv Hk]]]. cbn [ps_model ps_pending] in *.
-      apply units_doom; assumption.
+      apply doomed_ginv. apply units_doom; assumption.
   - (* top-level conflict *) cbn [ginv].
     destruct Ha as [Ha|Ha]; [eapply step_top_conflict; eassumption|exact (proj1 Ha)].
   - (* restart *)
@@ -2317,6 +2535,47 @@ Proof.
   exact (search_pb_invariant_good P n units tr md rs L lvl G Hi Hr).
 Qed.
 
+Lemma cons_neq : forall (A : Type) (x : A) (l : list A), x :: l <> l.
+Proof.
+  intros A x l H. assert (E : List.length (x :: l) = List.length l) by (rewrite H; reflexivity).
+  cbn in E. lia.
+Qed.
+
+(* PROGRESS (what commit 0a73d0f buys).  Every conflict step of every run either
+   ends the run with Unsat, or leads to a doomed configuration (P has no model
+   and the units loop ends with Unsat), or binds a NEW level-1 fact (a literal
+   that was not at level 1 before) without touching the list of learned
+   constraints, or learns a constraint that is asserting: after the back-jump to
+   a level >= 2 below the conflict level, it is an acceptable reason
+   (reason_okb) of the literal bound at that level. *)
+Theorem search_pb_conflict_progress : forall P n units tr md rs L lvl G c,
+  init_ok P n units ->
+  prun P n (init_pconfig n units) (PRunning (PState tr md rs L lvl [] G)) ->
+  In c (P ++ L) -> confl_chk n md c = true ->
+  progress P n (PState tr md rs L lvl [] G) (conflict_succ (PState tr md rs L lvl [] G) c).
+Proof.
+  intros P n units tr md rs L lvl G c Hi Hr Hc Hk.
+  apply (conflict_good P n tr md rs L lvl G c); [|exact Hc|exact Hk].
+  exact (search_pb_invariant_good P n units tr md rs L lvl G Hi Hr).
+Qed.
+
+(* in particular a conflict step never leads to a configuration with the same
+   learned constraints and no new fact (unless doomed) *)
+Theorem search_pb_conflict_not_stationary : forall P n units tr md rs L lvl G c s',
+  init_ok P n units ->
+  prun P n (init_pconfig n units) (PRunning (PState tr md rs L lvl [] G)) ->
+  In c (P ++ L) -> confl_chk n md c = true ->
+  conflict_succ (PState tr md rs L lvl [] G) c = PRunning s' ->
+  doom P s' \/ ps_ghost s' <> G \/
+  exists x, In x (ps_trail s') /\ Z.abs (model_at (ps_model s') x) = 1 /\ Z.abs (model_at md x) <> 1.
+Proof.
+  intros P n units tr md rs L lvl G c s' Hi Hr Hc Hk E.
+  pose proof (search_pb_conflict_progress P n units tr md rs L lvl G c Hi Hr Hc Hk) as Hp.
+  rewrite E in Hp. cbn [progress] in Hp.
+  destruct Hp as [Hp|[[_ Hp]|[c' [x [Hg _]]]]]; [left; exact Hp|right; right; exact Hp|].
+  right. left. cbn [ps_ghost] in Hg. rewrite Hg. apply cons_neq.
+Qed.
+
 (* ------------------------------------------------------------------ *)
 (* 13. the executable replay produces runs                              *)
 
@@ -2462,3 +2721,47 @@ Definition ex_forget_run : list pcmd :=
   ex_forget_run1 ++
   [KDecide 5; KPropagate 6 1; KPropagate 4 1; KConflict 0;
    KDecide (-7); KDecide 5; KPropagate 6 1; KPropagate 4 1; KDecide 2; KDecide 3; KAnswerSat].
+
+(* the input on which the search did not terminate before commit 0a73d0f
+   (satisfiable, 7 variables; Proofs/CPSearch.v go_A, go_B) *)
+Definition ex_live : problem := [go_A; go_B].
+(* first conflict: the unit x4, a new fact; the configuration is then
+   S = (trail [x4], level 1, nothing learned) *)
+Definition ex_live_pre : list pcmd :=
+  [KDecide (-1); KDecide (-7); KDecide (-6); KPropagate 4 0; KPropagate 5 0; KPropagate (-3) 0;
+   KConflict 1].
+(* from S: three decisions, two propagations, and the second constraint is falsified *)
+Definition ex_live_dp : list pcmd :=
+  [KDecide (-1); KDecide (-7); KDecide (-6); KPropagate 5 0; KPropagate (-3) 0].
+(* the run of the real solver at 0a73d0f (two conflicts, then Sat) *)
+Definition ex_live_run : list pcmd :=
+  ex_live_pre ++
+  [KDecide (-3); KDecide (-7); KDecide (-6); KPropagate 5 0; KPropagate (-1) 0;
+   KConflict 1;      (* learns 2 x4 + x2 + x3 + x7 >= 4, back-jump to level 2, x7 *)
+   KDecide 5; KDecide (-6); KPropagate (-1) 0; KPropagate 2 1; KAnswerSat].
+
+(* BEFORE 0a73d0f the conflict step maps the configuration reached from S by
+   ex_live_dp back to S: cuttingPlanes returns the unit x4, which is already a
+   fact, and nothing else: the search can go round for ever *)
+Lemma livelock_old :
+  exists S s1,
+    replay_pb ex_live 7 [] ex_live_pre = Some (PRunning S) /\
+    preplay_from ex_live 7 (PRunning S) ex_live_dp = Some (PRunning s1) /\
+    ps_pending s1 = [] /\ confl_chk 7 (ps_model s1) go_B = true /\
+    fst (cutting_planes_mid_full (cp_state s1 go_B)) = CPUnits [4] /\
+    conflict_succ_old s1 go_B = PRunning S.
+Proof. eexists. eexists. vm_compute. repeat split. Qed.
+
+(* AFTER: the same step learns the whole constraint, which is asserting, and
+   jumps back to level 3 *)
+Lemma livelock_new :
+  exists S s1,
+    replay_pb ex_live 7 [] ex_live_pre = Some (PRunning S) /\
+    preplay_from ex_live 7 (PRunning S) ex_live_dp = Some (PRunning s1) /\
+    conflict_succ s1 go_B =
+      PRunning (PState [4; -1; -7; 6] [-2; 0; 0; 1; 0; 3; -3]
+                 [None; None; None; None; None;
+                  Some (PBC [(3, 4); (1, -1); (1, 2); (1, 5); (1, 6); (1, 7)] 7); None]
+                 [PBC [(3, 4); (1, -1); (1, 2); (1, 5); (1, 6); (1, 7)] 7] 3 []
+                 [PBC [(3, 4); (1, -1); (1, 2); (1, 5); (1, 6); (1, 7)] 7]).
+Proof. eexists. eexists. vm_compute. repeat split. Qed.
